@@ -123,7 +123,58 @@ def salt(S, obj, seq, rng, rep, k=None, cheap=False):
             obj.get_linear_sigma(w)
             obj.get_linear_hydropathy(w)
     rep.cnt("salted_objects")
+    _sibling(S, seq, rep, cheap)
     return done
+
+
+def _sibling(S, seq, rep, cheap):
+    """Histories across TWO objects: between the construction of the observed object and the observed query another object
+    - for the same text, its mirror image, a point variant or a rearrangement of it - is built and asked things (and is
+    sometimes left with phosphosites set).  Nothing done to it may change what the observed object answers.  The choices
+    come from a generator of their own (keyed by the sequence), so the random streams of the workloads stay what they were."""
+    import random
+    import zlib
+    if not seq:
+        return
+    r2 = random.Random(zlib.crc32(seq.encode("ascii", "replace")) ^ 0x5151)
+    if r2.random() >= 0.4:
+        return
+    kind = r2.choice(["same", "mirror", "point", "rearranged"])
+    if kind == "same":
+        s2 = seq
+    elif kind == "mirror":
+        s2 = seq[::-1]
+    elif kind == "point":
+        i = r2.randrange(len(seq))
+        s2 = seq[:i] + r2.choice([a for a in "ACDEFGHIKLMNPQRSTVWY" if a != seq[i]]) + seq[i + 1:]
+    else:
+        l_ = list(seq)
+        r2.shuffle(l_)
+        s2 = "".join(l_)
+    try:
+        sib = S["SP"](s2)
+        sib.get_FCR()
+        sib.get_NCPR()
+        sib.get_amino_acid_fractions()
+        sib.get_mean_hydropathy()
+        sib.get_linear_NCPR(min(len(s2), 5))
+        sib.get_reduced_alphabet_sequence(r2.choice([2, 4, 8]))
+        sty = [i + 1 for i, c in enumerate(s2) if c in "STY"]
+        if sty:
+            sib.set_phosphosites(r2.sample(sty, min(len(sty), 2)))
+            sib.get_phosphosequence()
+        if not cheap and len(s2) <= 60:
+            sib.get_kappa()
+            sib.get_deltaMax(True)
+            sib.get_Omega()
+            sib.get_SCD()
+            sib.get_isoelectric_point()
+            if sty:
+                sib.get_kappa_after_phosphorylation()
+        rep.cnt("salt_sibling_objects_" + kind)
+    except Exception:
+        # a sibling that cannot be built or asked (window longer than a two-residue chain ...) is not a verdict on anything
+        rep.cnt("salt_sibling_calls_refused")
 
 
 def present(rng, seq):
